@@ -369,6 +369,12 @@ def schedules(ctx):
     for name in list(rows) + ['fortnightly']:
         val = Valuation(strs={'self.rebalance': name})
         ps = summarise(ctx, fn, policy=same_module, oracle=val)
+        from ..lib import without_sound_memo_hits
+        n_unk_ = len(val.unknown)
+        ps, _memos = without_sound_memo_hits(ctx, 'C13.S4', fn, ps, 'C13.S4|%s' % name)
+        if _memos:
+            # (whether a sound memo already holds the entry is not something the outcome depends on)
+            val.unknown[:] = [u_ for u_ in val.unknown if not any(m_ in str(u_) for m_ in _memos)]
         if name not in rows:
             if not all(p.outcome == 'raise' and p.state.exc[1] == 'ValueError' for p in ps) and val.unknown:
                 # the frequency is looked up somewhere the valuation does not decide (a registry filled when the schedule classes are defined): what the look-up
